@@ -129,6 +129,13 @@ where
         }
     };
     let nv = parsed.unwrap();
+    // the accessor says the same as the variant
+    match (&nv, nv.value()) {
+        (NumericValue::Value(v), Some(a)) => ensure!(format!("{v:?}") == format!("{a:?}"), "value-accessor", "{:?}: value() = {a:?}, variant holds {v:?}", case.tok),
+        (NumericValue::Value(v), None) => fail!("value-accessor", "{:?}: value() = None for Value({v:?})", case.tok),
+        (other, Some(a)) => fail!("value-accessor", "{:?}: value() = Some({a:?}) for {other:?}", case.tok),
+        (_, None) => {}
+    }
     // ---- resolve oracle
     let (lo, hi, def) = match case.path {
         2 => (tmin, tmax, None),
